@@ -3,6 +3,7 @@ package wire
 import (
 	"errors"
 	"fmt"
+	"io"
 	"testing"
 
 	sse "github.com/tmaxmax/go-sse"
@@ -14,15 +15,32 @@ import (
 
 const ruleC11Read = "sse.Read part of C11: rapid-generated streams (C01 generators) x read plan, ended by an injected read error after the last byte (so the error may arrive in mid-line, at a line end or at a block end). Oracle: the events of all completed blocks are yielded intact, then exactly one item carrying the read error itself (errors.Is) and NOT ErrUnexpectedEOF, nothing after it. Non-trivial: the stream ends in mid-line or its last block is field-less."
 
-var errReadBoom = errors.New("harness: injected read error")
+var (
+	errReadBoom = errors.New("harness: injected read error")
+	// read errors of the transport's own making that WRAP the end-of-file sentinels: they are
+	// still read errors (a reset connection is not a clean end of the stream)
+	errReadWrapsEOF  = fmt.Errorf("harness: connection reset by peer: %w", io.EOF)
+	errReadWrapsUEOF = fmt.Errorf("harness: body truncated: %w", io.ErrUnexpectedEOF)
+)
 
 type C11ReadCase struct {
-	Toks []Tok `json:"toks"`
-	Plan Plan  `json:"plan"`
+	Toks    []Tok  `json:"toks"`
+	Plan    Plan   `json:"plan"`
+	ErrKind string `json:"errkind,omitempty"` // "" plain | wraps-eof | wraps-ueof
+}
+
+func (c C11ReadCase) err() error {
+	switch c.ErrKind {
+	case "wraps-eof":
+		return errReadWrapsEOF
+	case "wraps-ueof":
+		return errReadWrapsUEOF
+	}
+	return errReadBoom
 }
 
 func genC11Read(t *rapid.T) C11ReadCase {
-	return C11ReadCase{Toks: genAnyStream.Draw(t, "stream"), Plan: genPlan.Draw(t, "plan")}
+	return C11ReadCase{Toks: genAnyStream.Draw(t, "stream"), Plan: genPlan.Draw(t, "plan"), ErrKind: stats.From(t, []string{"", "", "wraps-eof", "wraps-ueof"}, "errkind")}
 }
 
 func checkC11Read(t *testing.T, c C11ReadCase) *stats.Verdict {
@@ -39,7 +57,7 @@ func checkC11Read(t *testing.T, c C11ReadCase) *stats.Verdict {
 			want = append(want, ref.Events[b.Event])
 		}
 	}
-	items, extra, _ := readAll(stream, c.Plan, nil, -1, errReadBoom)
+	items, extra, _ := readAll(stream, c.Plan, nil, -1, c.err())
 	desc := fmt.Sprintf("sse.Read(%q + read error) plan=%+v\n got  %s\n want %s + the read error", stream2s(stream), c.Plan, fmtItems(items), fmtRef(want))
 	if extra != 0 {
 		return v.Failf("", "yield after stop: %s", desc)
@@ -56,7 +74,7 @@ func checkC11Read(t *testing.T, c C11ReadCase) *stats.Verdict {
 	if last.ev != (sse.Event{}) {
 		return v.Failf("", "the error item carries an event: %s", desc)
 	}
-	if !errors.Is(last.err, errReadBoom) || errors.Is(last.err, sse.ErrUnexpectedEOF) {
+	if !errors.Is(last.err, c.err()) || errors.Is(last.err, sse.ErrUnexpectedEOF) {
 		return v.Failf("read-error-not-itself", "the read error was reported as %v: %s", last.err, desc)
 	}
 	fieldless := len(ref.Blocks) > 0 && ref.Blocks[len(ref.Blocks)-1].Event < 0 && !ref.UnexpectedEOF
@@ -64,6 +82,7 @@ func checkC11Read(t *testing.T, c C11ReadCase) *stats.Verdict {
 	if ref.UnexpectedEOF {
 		v.Class("read-error-in-mid-line")
 	}
+	v.Class("errkind:" + c.ErrKind)
 	if fieldless {
 		v.Class("read-error-after-fieldless-block")
 	}
